@@ -37,6 +37,7 @@ struct thr {
 	void *(*lfn)(void *);
 	int nsig;
 	int sigq[8];
+	sigset_t mask;          /* signals this thread currently blocks (tracked at pthread_sigmask) */
 	const char *what;
 };
 
@@ -50,6 +51,7 @@ int (*sched_on_signal)(int tid, int sig);
 void (*sched_on_wait_entry)(int tid, struct env_wait *w);
 void (*sched_on_wait_return)(int tid, struct env_wait *w, int n);
 long sched_max_points;
+int sched_signal_atomic = 1;
 long sched_points;
 
 /* ---------------------------------------------------------------- futex */
@@ -103,7 +105,7 @@ static int wait_ready(struct thr *t)
 {
 	struct env_wait *w = t->w;
 	int r;
-	if (t->nsig)
+	if (t->nsig && !sigismember(&t->mask, t->sigq[0]))
 		return 1;
 	if (w->timeout_ns >= 0 && env_ts_cmp(&w->deadline, &env_now) <= 0)
 		return 1;
@@ -131,12 +133,23 @@ static int wait_ready(struct thr *t)
 	}
 }
 
+static int op_ready(int i);
+
 static int enabled(int i)
 {
 	struct thr *t = &T[i];
-	int *o;
 	if (!t->used || t->finished)
 		return 0;
+	/* a thread blocked in lock / join / flag wait still runs signal handlers */
+	if (t->nsig && !sigismember(&t->mask, t->sigq[0]) && (t->op == OP_LOCK || t->op == OP_JOIN || t->op == OP_FLAG))
+		return 1;
+	return op_ready(i);
+}
+
+static int op_ready(int i)
+{
+	struct thr *t = &T[i];
+	int *o;
 	switch (t->op) {
 	case OP_LOCK:
 		o = lk_owner(t->obj, 1);
@@ -235,6 +248,22 @@ static void decide(int me)
 		fwait(&T[me].go);
 }
 
+/* raise sig on the calling thread; while its handler runs every signal is blocked
+ * (the library installs its handler with a full sa_mask) */
+void sched_raise(int sig)
+{
+	int me = self_id;
+	sigset_t saved;
+	if (me < 0) {
+		pthread_kill(pthread_self(), sig);
+		return;
+	}
+	saved = T[me].mask;
+	sigfillset(&T[me].mask);
+	pthread_kill(pthread_self(), sig);
+	T[me].mask = saved;
+}
+
 static void deliver_signals(int me)
 {
 	/* the receiving thread raises the queued signal on itself: synchronous, honours the real mask */
@@ -247,10 +276,10 @@ static void deliver_signals(int me)
 		memmove(&T[me].sigq[0], &T[me].sigq[1], (T[me].nsig - 1) * sizeof(int));
 		T[me].nsig--;
 		/* the handler runs synchronously here, as one atomic step */
-		atomic_depth++;
+		atomic_depth += sched_signal_atomic;
 		if (!sched_on_signal || sched_on_signal(me, sig))
-			pthread_kill(pthread_self(), sig);
-		atomic_depth--;
+			sched_raise(sig);
+		atomic_depth -= sched_signal_atomic;
 	}
 }
 
@@ -274,10 +303,20 @@ static void point(int op, void *obj, int target, const char *what)
 	T[me].obj = obj;
 	T[me].target = target;
 	T[me].what = what;
-	decide(me);
+	for (;;) {
+		decide(me);
+		if (T[me].nsig && !T[me].in_wait) {
+			/* the handler has scheduling points of its own: they must not clobber this pending operation */
+			T[me].op = OP_RUN;
+			deliver_signals(me);
+			T[me].op = op;
+			T[me].obj = obj;
+			T[me].target = target;
+		}
+		if (op_ready(me))
+			break;          /* otherwise we were only woken to run a signal handler: block again */
+	}
 	T[me].op = OP_RUN;
-	if (T[me].nsig && !T[me].in_wait)
-		deliver_signals(me);
 }
 
 void sched_wait_flag(volatile int *flag)
@@ -504,7 +543,7 @@ static int s_wait(struct env_wait *w)
 		T[me].op = OP_WAIT;
 		decide(me);
 		T[me].op = OP_RUN;
-		if (T[me].nsig) {
+		if (T[me].nsig && !sigismember(&T[me].mask, T[me].sigq[0])) {
 			T[me].in_wait = 0;
 			deliver_signals(me);
 			if (sched_on_wait_return)
@@ -526,6 +565,12 @@ static int s_wait(struct env_wait *w)
 	return n;
 }
 
+static void s_sigmask_changed(const sigset_t *now)
+{
+	if (self_id >= 0)
+		T[self_id].mask = *now;
+}
+
 void sched_init(void)
 {
 	memset(T, 0, sizeof(T));
@@ -542,6 +587,7 @@ void sched_init(void)
 	env_thr.spin_lock = s_spin_lock;
 	env_thr.spin_unlock = s_spin_unlock;
 	env_thr.lock_reinit = lk_forget;
+	env_thr.sigmask_changed = s_sigmask_changed;
 	env_thr.create = s_create;
 	env_thr.join = s_join;
 	env_thr.key_create = s_key_create;
